@@ -4,19 +4,19 @@
      AesCtrHmacAeadKey { uint32 version = 1; AesCtrKey aes_ctr_key = 2; HmacKey hmac_key = 3; }
      AesCtrKey { uint32 version = 1; AesCtrParams params = 2; bytes key_value = 3; }  AesCtrParams { uint32 iv_size = 1; }
      HmacKey   { uint32 version = 1; HmacParams params = 2; bytes key_value = 3; }    HmacParams { HashType hash = 1; uint32 tag_size = 2; }
-   newDEK(template) = registry.NewKeyData(template).Value: the deterministic proto serialisation of a
-   freshly generated key (fields in number order, zero-valued scalars - the three versions - omitted):
-   etm_dek_proto.  registry.Primitive(url, dek) on Encrypt and Decrypt parses it back, validates it as
-   aesctrhmac.NewParameters / NewKey and the primitive constructors do (EtM.etm_valid) and builds the
-   full primitive with an EMPTY output prefix: etm_dek_enc / etm_dek_dec.
-   As for the single-field data keys (Envelope.dek_key) the parser of the model accepts the
-   serialisations newDEK can produce for the template in use (every length below 128, so every varint is
-   one byte; IV size = the template's) and nothing else - protobuf would also accept other encodings of
-   the same message, which only someone who can make the key-encryption AEAD decrypt to them can
-   present.  hash is the HashType enum value (SHA1 1, SHA384 2, SHA256 3, SHA512 4, SHA224 5).
+   newDEK(template) = registry.NewKeyData(template).Value: the proto serialisation of a freshly
+   generated key = ProtoWire.encode of the message (fields in number order, zero scalars omitted):
+   etm_dek_proto.  On Encrypt and Decrypt, registry.Primitive(TEMPLATE'S TYPE URL, dek) unmarshals the
+   bytes (ProtoWire.decode: any field order, unknown fields skipped, last value wins, multi-byte
+   varints - what protobuf accepts), requires the three versions to be 0, and validates sizes and hash
+   as aesctrhmac.NewParameters / NewKey and the primitive constructors do (EtM.etm_valid; a missing
+   sub-message reads as all-zero and fails that validation), then builds the full primitive with an
+   EMPTY output prefix: etm_dek_enc / etm_dek_dec.  Nothing of the template but its type URL is
+   consulted: the IV size, tag size, hash and key sizes are those of the parsed key (fourth audit A1).
+   hash is the HashType enum value (SHA1 1, SHA384 2, SHA256 3, SHA512 4, SHA224 5).
    No proofs here. *)
 From Coq Require Import List NArith Bool Arith.
-From Tink Require Import Bytes AeadFrame Ctr EtM Envelope.
+From Tink Require Import Bytes AeadFrame Ctr EtM Envelope ProtoWire.
 Import ListNotations.
 Open Scope N_scope.
 
@@ -26,62 +26,50 @@ Definition hash_len (h : N) : option nat :=
   | _ => None
   end.
 
-(* a length-delimited field whose length fits one varint byte *)
-Definition pfield (tag : N) (x : bytes) : bytes := tag :: lenN x :: x.
-Definition take_pfield (tag : N) (b : bytes) : option (bytes * bytes) :=
-  match b with
-  | t :: n :: rest =>
-    if (t =? tag) && (n <? 128) && (n <=? lenN rest)
-    then Some (firstn (N.to_nat n) rest, skipn (N.to_nat n) rest) else None
-  | _ => None
-  end.
+Definition ctr_params_schema : schema := SCons 1 TU32 SNil.
+Definition ctr_key_schema : schema := SCons 1 TU32 (SCons 2 (TMsg ctr_params_schema) (SCons 3 TBytes SNil)).
+Definition hmac_params_schema : schema := SCons 1 TEnum (SCons 2 TU32 SNil).
+Definition hmac_key_schema : schema := SCons 1 TU32 (SCons 2 (TMsg hmac_params_schema) (SCons 3 TBytes SNil)).
+Definition etm_schema : schema := SCons 1 TU32 (SCons 2 (TMsg ctr_key_schema) (SCons 3 (TMsg hmac_key_schema) SNil)).
 
-Definition ctr_params_bytes (iv : N) : bytes := [8; iv].
-Definition hmac_params_bytes (h tg : N) : bytes := [8; h; 16; tg].
+(* the key message of a key with hash h *)
+Definition etm_msg (h : N) (k : etm_key) : msg :=
+  [VInt 0;
+   VMsg (Some [VInt 0; VMsg (Some [VInt (N.of_nat (ek_iv k))]); VBytes (ek_aes k)]);
+   VMsg (Some [VInt 0; VMsg (Some [VInt h; VInt (N.of_nat (ek_tag k))]); VBytes (ek_hmac k)])].
 
-Definition etm_dek_proto (h : N) (k : etm_key) : bytes :=
-  pfield 18 (pfield 18 (ctr_params_bytes (N.of_nat (ek_iv k))) ++ pfield 26 (ek_aes k)) ++
-  pfield 26 (pfield 18 (hmac_params_bytes h (N.of_nat (ek_tag k))) ++ pfield 26 (ek_hmac k)).
+Definition etm_dek_proto (h : N) (k : etm_key) : bytes := encode etm_schema (etm_msg h k).
 
-Definition parse_ctr_params (b : bytes) : option N :=
-  match b with [a; iv] => if (a =? 8) && (iv <? 128) then Some iv else None | _ => None end.
-Definition parse_hmac_params (b : bytes) : option (N * N) :=
-  match b with
-  | [a; h; c; tg] => if (a =? 8) && (c =? 16) && (h <? 128) && (tg <? 128) then Some (h, tg) else None
-  | _ => None
-  end.
+(* getters of generated proto code: an absent sub-message reads as the all-default one *)
+Definition sub_or (d : msg) (v : val) : msg := match v with VMsg (Some m) => m | _ => d end.
+Definition vint (v : val) : N := match v with VInt n => n | _ => 0 end.
+Definition vbytes (v : val) : bytes := match v with VBytes b => b | _ => [] end.
 
-(* params(2) then key_value(3), nothing else *)
-Definition parse_keymsg (b : bytes) : option (bytes * bytes) :=
-  match take_pfield 18 b with
-  | Some (par, r) =>
-    match take_pfield 26 r with
-    | Some (kv, []) => Some (par, kv)
-    | _ => None
-    end
-  | None => None
-  end.
-
-Definition etm_dek_parse (ivsz : nat) (dek : bytes) : option (N * etm_key) :=
-  match take_pfield 18 dek with
-  | Some (ctr, r1) =>
-    match take_pfield 26 r1 with
-    | Some (hm, []) =>
-      match parse_keymsg ctr, parse_keymsg hm with
-      | Some (cp, ak), Some (hp, hk) =>
-        match parse_ctr_params cp, parse_hmac_params hp with
-        | Some iv, Some (h, tg) =>
-          let k := mkEtm ak hk (N.to_nat iv) (N.to_nat tg) in
-          match hash_len h with
-          | Some hl => if etm_valid hl k && Nat.eqb (ek_iv k) ivsz then Some (h, k) else None
+(* aesctrhmac keyParser.ParseKey after proto.Unmarshal, with output prefix RAW and id 0 *)
+Definition etm_of_msg (m : msg) : option (N * etm_key) :=
+  match m with
+  | [ver; ctr; hm] =>
+    match sub_or (default_msg ctr_key_schema) ctr, sub_or (default_msg hmac_key_schema) hm with
+    | [cver; cpar; ckey], [hver; hpar; hkey] =>
+      match sub_or (default_msg ctr_params_schema) cpar, sub_or (default_msg hmac_params_schema) hpar with
+      | [iv], [hash; tag] =>
+        if (vint ver =? 0) && (vint cver =? 0) && (vint hver =? 0) then
+          let k := mkEtm (vbytes ckey) (vbytes hkey) (N.to_nat (vint iv)) (N.to_nat (vint tag)) in
+          match hash_len (vint hash) with
+          | Some hl => if etm_valid hl k then Some (vint hash, k) else None
           | None => None
           end
-        | _, _ => None
-        end
+        else None
       | _, _ => None
       end
-    | _ => None
+    | _, _ => None
     end
+  | _ => None
+  end.
+
+Definition etm_dek_parse (dek : bytes) : option (N * etm_key) :=
+  match decode etm_schema dek with
+  | Some m => etm_of_msg m
   | None => None
   end.
 
@@ -89,13 +77,13 @@ Section DEKETM.
   Variable aes : bytes -> bytes -> bytes.
   Variable hmacs : N -> bytes -> bytes -> bytes.   (* HashType value -> key -> message -> full digest *)
 
-  Definition etm_dek_enc (ivsz : nat) (dek iv p ad : bytes) : outcome bytes :=
-    match etm_dek_parse ivsz dek with
+  Definition etm_dek_enc (dek iv p ad : bytes) : outcome bytes :=
+    match etm_dek_parse dek with
     | Some (h, k) => etm_enc aes (hmacs h) [] k iv p ad
     | None => Err
     end.
-  Definition etm_dek_dec (ivsz : nat) (dek c ad : bytes) : outcome bytes :=
-    match etm_dek_parse ivsz dek with
+  Definition etm_dek_dec (dek c ad : bytes) : outcome bytes :=
+    match etm_dek_parse dek with
     | Some (h, k) => etm_dec aes (hmacs h) [] k c ad
     | None => Err
     end.
